@@ -85,31 +85,32 @@ mod mac_nested__ser;
 mod mac_gensym_disj__exp;
 mod mac_block__par;
 mod mac_disj__exppar;
-mod rnd_core_01__par;
-mod rnd_core_04__ser;
-mod rnd_core_06__pari;
-mod rnd_core_09__par;
-mod rnd_core_12__ser;
-mod rnd_core_14__pari;
-mod rnd_core_17__par;
-mod rnd_core_20__ser;
-mod rnd_core_22__pari;
-mod rnd_core_25__par;
-mod rnd_core_28__ser;
-mod rnd_core_30__pari;
-mod rnd_agg_03__par;
-mod rnd_agg_06__ser;
-mod rnd_agg_08__pari;
-mod rnd_agg_11__par;
-mod rnd_agg_14__ser;
-mod rnd_prec_01__pari;
-mod rnd_prec_03__ser;
-mod rnd_prec_04__to;
-mod rnd_prec_06__par;
-mod rnd_prec_07__topar;
-mod rnd_prea_01__pari;
-mod rnd_prea_04__par;
-mod rnd_prea_07__ser;
+mod stress_rel__par;
+mod rnd_core_03__ser;
+mod rnd_core_05__pari;
+mod rnd_core_08__par;
+mod rnd_core_11__ser;
+mod rnd_core_13__pari;
+mod rnd_core_16__par;
+mod rnd_core_19__ser;
+mod rnd_core_21__pari;
+mod rnd_core_24__par;
+mod rnd_core_27__ser;
+mod rnd_core_29__pari;
+mod rnd_agg_02__par;
+mod rnd_agg_05__ser;
+mod rnd_agg_07__pari;
+mod rnd_agg_10__par;
+mod rnd_agg_13__ser;
+mod rnd_agg_15__pari;
+mod rnd_prec_02__pari;
+mod rnd_prec_04__ser;
+mod rnd_prec_05__to;
+mod rnd_prec_07__par;
+mod rnd_prec_08__topar;
+mod rnd_prea_03__par;
+mod rnd_prea_06__ser;
+mod rnd_prea_08__pari;
 
 fn lookup(name: &str) -> fn() -> Box<dyn Driven> {
    match name {
@@ -190,31 +191,32 @@ fn lookup(name: &str) -> fn() -> Box<dyn Driven> {
       "mac_gensym_disj__exp" => mac_gensym_disj__exp::make,
       "mac_block__par" => mac_block__par::make,
       "mac_disj__exppar" => mac_disj__exppar::make,
-      "rnd_core_01__par" => rnd_core_01__par::make,
-      "rnd_core_04__ser" => rnd_core_04__ser::make,
-      "rnd_core_06__pari" => rnd_core_06__pari::make,
-      "rnd_core_09__par" => rnd_core_09__par::make,
-      "rnd_core_12__ser" => rnd_core_12__ser::make,
-      "rnd_core_14__pari" => rnd_core_14__pari::make,
-      "rnd_core_17__par" => rnd_core_17__par::make,
-      "rnd_core_20__ser" => rnd_core_20__ser::make,
-      "rnd_core_22__pari" => rnd_core_22__pari::make,
-      "rnd_core_25__par" => rnd_core_25__par::make,
-      "rnd_core_28__ser" => rnd_core_28__ser::make,
-      "rnd_core_30__pari" => rnd_core_30__pari::make,
-      "rnd_agg_03__par" => rnd_agg_03__par::make,
-      "rnd_agg_06__ser" => rnd_agg_06__ser::make,
-      "rnd_agg_08__pari" => rnd_agg_08__pari::make,
-      "rnd_agg_11__par" => rnd_agg_11__par::make,
-      "rnd_agg_14__ser" => rnd_agg_14__ser::make,
-      "rnd_prec_01__pari" => rnd_prec_01__pari::make,
-      "rnd_prec_03__ser" => rnd_prec_03__ser::make,
-      "rnd_prec_04__to" => rnd_prec_04__to::make,
-      "rnd_prec_06__par" => rnd_prec_06__par::make,
-      "rnd_prec_07__topar" => rnd_prec_07__topar::make,
-      "rnd_prea_01__pari" => rnd_prea_01__pari::make,
-      "rnd_prea_04__par" => rnd_prea_04__par::make,
-      "rnd_prea_07__ser" => rnd_prea_07__ser::make,
+      "stress_rel__par" => stress_rel__par::make,
+      "rnd_core_03__ser" => rnd_core_03__ser::make,
+      "rnd_core_05__pari" => rnd_core_05__pari::make,
+      "rnd_core_08__par" => rnd_core_08__par::make,
+      "rnd_core_11__ser" => rnd_core_11__ser::make,
+      "rnd_core_13__pari" => rnd_core_13__pari::make,
+      "rnd_core_16__par" => rnd_core_16__par::make,
+      "rnd_core_19__ser" => rnd_core_19__ser::make,
+      "rnd_core_21__pari" => rnd_core_21__pari::make,
+      "rnd_core_24__par" => rnd_core_24__par::make,
+      "rnd_core_27__ser" => rnd_core_27__ser::make,
+      "rnd_core_29__pari" => rnd_core_29__pari::make,
+      "rnd_agg_02__par" => rnd_agg_02__par::make,
+      "rnd_agg_05__ser" => rnd_agg_05__ser::make,
+      "rnd_agg_07__pari" => rnd_agg_07__pari::make,
+      "rnd_agg_10__par" => rnd_agg_10__par::make,
+      "rnd_agg_13__ser" => rnd_agg_13__ser::make,
+      "rnd_agg_15__pari" => rnd_agg_15__pari::make,
+      "rnd_prec_02__pari" => rnd_prec_02__pari::make,
+      "rnd_prec_04__ser" => rnd_prec_04__ser::make,
+      "rnd_prec_05__to" => rnd_prec_05__to::make,
+      "rnd_prec_07__par" => rnd_prec_07__par::make,
+      "rnd_prec_08__topar" => rnd_prec_08__topar::make,
+      "rnd_prea_03__par" => rnd_prea_03__par::make,
+      "rnd_prea_06__ser" => rnd_prea_06__ser::make,
+      "rnd_prea_08__pari" => rnd_prea_08__pari::make,
       _ => panic!("no such program variant in this shard: {}", name),
    }
 }
